@@ -32,6 +32,11 @@ def T(name, variant, *args, **kw):
 PARTS = {
   'C05': {
     'quick': [
+      # refusing element type: a refused set must not construct, finalise or leak any element (ledger unchanged)
+      T('refuse-int-picky6x2', 'base', 'prop=C05', 'keys=int', 'vals=picky', 'nkeys=6', 'nvals=2', 'alias=1'),
+      T('refuse-picky-picky6x2', 'base', 'prop=C05', 'keys=picky', 'vals=picky', 'nkeys=6', 'nvals=2'),
+      T('refuse-picky-int5x2-asan', 'asan', 'prop=C05', 'keys=picky', 'vals=int', 'nkeys=5', 'nvals=2'),
+      T('refuse-int-picky-two4', 'base', 'prop=C05', 'keys=int', 'vals=picky', 'two=1', 'nkeys=4', 'nvals=1'),
       # cross-type assignment: the target's old contents (other element types, Probe on either side) finalised exactly once
       T('cross-int-probe6x2', 'base', 'prop=C05', 'keys=int', 'vals=probe', 'nkeys=6', 'nvals=2', 'cross=1', 'table=1'),
       T('cross-int-int6x2', 'base', 'prop=C05', 'keys=int', 'vals=int', 'nkeys=6', 'nvals=2', 'cross=1', 'table=1'),
@@ -55,6 +60,10 @@ PARTS = {
       T('intkey-probeval6', 'base', 'prop=C05', 'keys=int', 'vals=probe', 'nkeys=6', 'nvals=2'),
     ],
     'thorough': [
+      T('refuse-int-picky8x2', 'base', 'prop=C05', 'keys=int', 'vals=picky', 'nkeys=8', 'nvals=2', 'alias=1'),
+      T('refuse-picky-picky8x2', 'base', 'prop=C05', 'keys=picky', 'vals=picky', 'nkeys=8', 'nvals=2'),
+      T('refuse-picky-int7x2-asan', 'asan', 'prop=C05', 'keys=picky', 'vals=int', 'nkeys=7', 'nvals=2'),
+      T('refuse-int-picky-two6', 'base', 'prop=C05', 'keys=int', 'vals=picky', 'two=1', 'nkeys=6', 'nvals=1'),
       T('cross-int-probe8x2', 'base', 'prop=C05', 'keys=int', 'vals=probe', 'nkeys=8', 'nvals=2', 'cross=1', 'table=1'),
       T('cross-int-int8x2', 'base', 'prop=C05', 'keys=int', 'vals=int', 'nkeys=8', 'nvals=2', 'cross=1', 'table=1'),
       T('cross-probe-blob7x2-asan', 'asan', 'prop=C05', 'keys=probe', 'vals=blob', 'nkeys=7', 'nvals=2', 'cross=1', 'table=1'),
@@ -134,6 +143,11 @@ PARTS = {
   },
   'C12': {
     'quick': [
+      # refusing element type: the element's own assign raises in the middle of set
+      T('fail-int-picky6x2', 'base', 'prop=C12', 'keys=int', 'vals=picky', 'nkeys=6', 'nvals=2'),
+      T('fail-picky-int6x2', 'base', 'prop=C12', 'keys=picky', 'vals=int', 'nkeys=6', 'nvals=2'),
+      T('fail-picky-picky5x2-asan', 'asan', 'prop=C12', 'keys=picky', 'vals=picky', 'nkeys=5', 'nvals=2'),
+      T('fail-int-picky8', 'base', 'prop=C12', 'keys=int', 'vals=picky', 'nkeys=8', 'nvals=1'),
       T('fail-wideint6x2', 'base', 'prop=C12', 'keys=wideint', 'nkeys=6', 'nvals=2'),
       T('fail-int-blob6x2', 'base', 'prop=C12', 'keys=int', 'vals=blob', 'nkeys=6', 'nvals=2'),
       T('fail-probe-int5x2-asan', 'asan', 'prop=C12', 'keys=probe', 'vals=int', 'nkeys=5', 'nvals=2'),
@@ -145,6 +159,10 @@ PARTS = {
       T('fail-str5-asan', 'asan', 'prop=C12', 'keys=str', 'nkeys=5', 'nvals=1'),
     ],
     'thorough': [
+      T('fail-int-picky8x2', 'base', 'prop=C12', 'keys=int', 'vals=picky', 'nkeys=8', 'nvals=2'),
+      T('fail-picky-int8x2', 'base', 'prop=C12', 'keys=picky', 'vals=int', 'nkeys=8', 'nvals=2'),
+      T('fail-picky-picky6x2-asan', 'asan', 'prop=C12', 'keys=picky', 'vals=picky', 'nkeys=6', 'nvals=2'),
+      T('fail-int-picky10', 'base', 'prop=C12', 'keys=int', 'vals=picky', 'nkeys=10', 'nvals=1'),
       T('fail-wideint8x2', 'base', 'prop=C12', 'keys=wideint', 'nkeys=8', 'nvals=2'),
       T('fail-int-blob8x2', 'base', 'prop=C12', 'keys=int', 'vals=blob', 'nkeys=8', 'nvals=2'),
       T('fail-probe-int6x2-asan', 'asan', 'prop=C12', 'keys=probe', 'vals=int', 'nkeys=6', 'nvals=2'),
